@@ -80,7 +80,8 @@ def load_known():
 
 
 def sanitize(s):
-    return re.sub(r"[^A-Za-z0-9_.=-]+", "_", s)[:100]
+    t = s.replace("<", "lt").replace(">", "gt").replace("!", "not")
+    return re.sub(r"[^A-Za-z0-9_.=-]+", "_", t)[:90] + "_" + hashlib.sha1(s.encode()).hexdigest()[:8]
 
 
 def check(pid, tier):
